@@ -234,6 +234,7 @@ PROPS = {
     "C02": dict(pool_prop([], ["placement and increment are one atomic step of the model, for picks on the same or on different pickers: the balancer-wide pick mutex gb.pickMu is held exclusively around the scan (F31; per-run obligation c02_scan_exclusive on the regenerated access table; the pick2 operation of the harness runs two picks, on one picker or on two, concurrently with the balancer lock stalled and the model must explain the outcome by some order of two atomic picks); completions and round-robin placements change the counters under the same mutex (F39; per-run obligation c02_counters_under_pick_mutex; operation scanpark stops a pick in the middle of its scan while other calls complete)"]),
                 theorems=pool_thms(["streams_exact", "streams_nonneg", "streams_zero_when_idle", "run_inv", "leastBusy_spec", "leastBusy_first_on_tie", "below_watermark_places"]) +
                 [("GcpVerif.Proofs.PickAtomic", "GcpVerif.Sync.c02_scan_exclusive"), ("GcpVerif.Proofs.PickAtomic", "GcpVerif.Sync.c02_counters_under_pick_mutex"), ("GcpVerif.Proofs.PickAtomic", "GcpVerif.Sync.c02_scan_present")] +
+                [("GcpVerif.Proofs.Atomic", "GcpVerif.Atomic." + n) for n in ["regions_atomic", "regions_atomic_idle", "sim", "unprotected_access_breaks_atomicity"]] +
                 [("GcpVerif.Proofs.PoolLoad", "GcpVerif.Pool." + n) for n in ["plain_pick_least_loaded", "published_lists_ready", "getLeastBusy_spec"]]),
     "C03": dict(pool_prop([], ["size bound: minSize <= maxSize and no Shutdown report for a current pool member (RunOk; known finding K6 outside, kernel-checked witness size_bound_needs_contract)"]),
                 theorems=pool_thms(["growth_only_when_saturated", "at_max_places_anyway", "below_watermark_places"]) +
